@@ -121,6 +121,15 @@ def evaluate(arg):
             out["lo"], out["amb"] = lo, amb
     except model.Unsupported as e:
         out["oracle_unsupported"] = str(e)
+    # D is bounded by the size of the sequence space (DESIGN 3.3): larger designs are not part of this run
+    try:
+        sp = model.space_size(d)
+    except model.Unsupported:
+        sp = None
+    out["space"] = sp
+    if sp is not None and sp > opts.get("space_limit", 150_000):
+        out["skipped"] = f"sequence space {sp} above the bound {opts.get('space_limit', 150_000)}"
+        return out
     try:
         block, objs = model.build(d)
     except Exception as e:
@@ -182,7 +191,7 @@ def evaluate(arg):
     return out
 
 
-def run(ds, want, opts=None, jobs=14, timeout=90):
+def run(ds, want, opts=None, jobs=14, timeout=45):
     args = [(d, tuple(want), opts or {}) for d in ds]
     res = runner.pmap(evaluate, args, jobs=jobs, timeout=timeout)
     out = []
